@@ -41,7 +41,8 @@ def scope_family():
     in both evaluation orders"""
     out = []
     for stack in [('d', None), (None, 'd'), ('d', 'e'), ('d', None, None), (None, 'd', None), (None, None, 'd'), ('d',), ('e', 'd', None)]:
-        for psi in [('EF', ('and', P0, ('not', P1))), ('AX', W), ('bind', 'xxx' if len(stack) < 3 else 'x', None, ('AX', ('var', 'xxx' if len(stack) < 3 else 'x')))]:
+        nv = 'xxx' if len(stack) < 3 else 'x'
+        for psi in [('EF', ('and', P0, ('not', P1))), ('AX', W), ('bind', nv, None, ('AX', ('var', nv))), ('bind', nv, None, ('AG', ('EF', ('var', nv))))]:
             if len(stack) == 3 and psi[0] == 'bind': continue
             vs = ['x', 'xx', 'xxx'][:len(stack)]
             body = psi
@@ -205,3 +206,19 @@ def e_uni(chk, fs, thorough, n_batches=2):
                 UC.check_equiv(chk, 'C04', sess, f, sess.runs[4]['ok'][pos], f'{tag} position {pos} sanitised == semantics', 'batch', rdec=sess.dec_plain)
             if sess.runs[1].get('observer_calls', 0) == 0:
                 chk.obligation(tag + ': progress observer was called', 'E-UNI', 'inconclusive')
+        # plain batches through the plain multi-formula entry points (their own code path), formulas of different heights in
+        # every order: the i-th result belongs to the i-th formula
+        plain = [f for f in fs if not (S.labels(f)[0] | S.labels(f)[1]) and S.quant_depth(f) <= 2]
+        fixed = [[('bind', 'x', None, ('AG', ('EF', X))), P0, ('EX', ('not', P1))], [('EF', ('AX', P0)), ('not', P0), ('AG', ('EF', ('and', P0, P1))), P1]]
+        for rep in range(len(fixed) + (4 if thorough else 1)):
+            batch = fixed[rep] if rep < len(fixed) else [rng.choice(plain) for _ in range(rng.choice([2, 3]))]
+            k = max(S.quant_depth(f) for f in batch) or 1
+            for order in (batch, list(reversed(batch))):
+                entries = ('multi', 'multi_dirty', 'trees', 'trees_dirty')
+                sess = UC.Session(inst, k, [{'phis': order, 'entry': e} for e in entries])
+                for e, r in zip(entries, sess.runs):
+                    tag = f'C04/E-UNI {inst.name} plain batch through model_check_{e} [' + ' ; '.join(S.show(f) for f in order) + ']'
+                    if 'ok' not in r or len(r['ok']) != len(order):
+                        chk.obligation(tag, 'E-UNI', 'violated'); chk.violation(tag, 'batch-error', {'instance': inst.name, 'aeon': inst.aeon, 'batch': [S.show(f) for f in order], 'answer': {k_: v_ for k_, v_ in r.items() if k_ != 'ok'}}, 'batch evaluation failed or returned a different number of results'); continue
+                    for pos, f in enumerate(order):
+                        UC.check_equiv(chk, 'C04', sess, f, r['ok'][pos], f'{tag} position {pos} == semantics of its formula', 'batch', rdec=sess.dec_for(entries.index(e)))
